@@ -10,6 +10,12 @@ def parse_expr(text: str) -> ast.expr:
     return ast.parse(" ".join(text.split()), mode="eval").body
 
 
+def _dedent_src(x):
+    import textwrap
+
+    return textwrap.dedent(x).strip() + "\n"
+
+
 def norm_header(h):
     h = " ".join(h.split()).rstrip(":")
     try:
@@ -110,7 +116,7 @@ class Contract:
         self.canary = canary
         self.inline_calls = set(inline_calls)
         self.vararg = vararg
-        self.at = {" ".join(k.split()): _clauses(v) for k, v in (at or {}).items()}  # ghost calls before matching statements
+        self.at = {" ".join(k.split()): [ast.parse(_dedent_src(x)).body for x in v] for k, v in (at or {}).items()}  # ghost calls before matching statements
         self.prologue = list(prologue)  # ghost statements executed at function entry
         self.defaults = dict(defaults or {})
 
